@@ -91,7 +91,7 @@ Print Assumptions C17_tscale_centre.
 (* ---------------------------------------------------------------------- *)
 (* Round 2: the WindowGenerator OBJECT (Object.v): shared counter `iw`, several
    generator views of one object consumed in any interleaving, tscale() calls in
-   between, amplitude buffers, and the window count on the raw arguments.      *)
+   between, amplitude buffers.      *)
 
 (* Interleaving independence.  For any set of views (firstlast, firstlast_valid,
    firstlast_splicing, slice, slice_array) of one object and ANY schedule of
@@ -196,29 +196,16 @@ Proof.
 Qed.
 Print Assumptions C17_splicing_buffers_fresh.
 
-(* Window count as __init__ evaluates it, on the raw arguments: equal to nwin (hence to the
-   number produced, C17_nwin_correct) for exact representations (Python int, signed NumPy
-   integers, floats: ubits = 0) and for unsigned ones of any width when nswin <= ns. *)
-Theorem C17_nwin_raw_correct_when_no_wrap :
-  forall ubits ns nswin ov,
-  (ubits = 0 \/ (0 < ubits /\ 0 <= nswin <= ns /\ ns < 2 ^ ubits)) ->
-  nwin_raw ubits ns nswin ov = nwin ns nswin ov.
-Proof.
-  intros ubits ns nswin ov [->|[Hu [Hw Hn]]].
-  - exact (nwin_raw_exact ns nswin ov).
-  - exact (nwin_raw_no_wrap ubits ns nswin ov Hu Hw Hn).
-Qed.
-Print Assumptions C17_nwin_raw_correct_when_no_wrap.
-
-(* FINDING F-C17-d (current code): with an unsigned argument and ns < nswin the difference
-   ns - nswin wraps: one window is produced and nwin announces at least two -- for EVERY such
-   triple; e.g. WindowGenerator(np.uint16(5), 20, 15).nwin = 13106. *)
-Theorem C17_nwin_unsigned_short_refuted :
-  (forall ubits ns nswin ov, 0 < ubits -> 1 <= ns < nswin -> nswin < 2 ^ ubits -> 0 <= ov < nswin ->
-     nwin ns nswin ov = 1 /\ 2 <= nwin_raw ubits ns nswin ov) /\
-  (nwin_raw 16 5 20 15 = 13106 /\ firstlast 5 20 15 = Some [(0, 5)]).
-Proof. split; [exact nwin_raw_wraps | vm_compute; split; reflexivity]. Qed.
-Print Assumptions C17_nwin_unsigned_short_refuted.
+(* Signal not longer than the window (any overlap): one window, the whole signal, and nwin = 1.
+   Positive statement for the class on which nwin wrapped for unsigned NumPy arguments until
+   repo 01d7a00 (former finding F-C17-d): __init__ now evaluates the count on the int()-converted
+   attributes, so Model.nwin is the count for EVERY representation of the arguments (the harness
+   runs 11 representations through the same model). *)
+Theorem C17_short_signal_single_window : forall ns nswin ov,
+  1 <= ns <= nswin -> 0 <= ov < nswin ->
+  nwin ns nswin ov = 1 /\ firstlast ns nswin ov = Some [(0, ns)].
+Proof. exact short_signal_single_window. Qed.
+Print Assumptions C17_short_signal_single_window.
 
 (* The float64 arithmetic in the window count (was a trusted assumption in round 1).
    FloatCeil.nwin_float64 is the source line at the IEEE-754 binary64 datatype level (Flocq:
